@@ -391,6 +391,7 @@ CHECKS["C14"] = {
             {"run": "TestVfC14WriteStall", "quick": 48, "thorough": 1600, "shards_quick": 8, "shards_thorough": 16, "timeout_thorough": 3000},
             {"run": "TestVfC14Saturated", "quick": 96, "thorough": 3200, "shards_quick": 8, "shards_thorough": 16},
             {"run": "TestVfC14UdpServerRestart", "quick": 48, "thorough": 3200, "shards_quick": 8, "shards_thorough": 16, "timeout_thorough": 3400},
+            {"run": "TestVfC14LocalSocketBroken", "quick": 160, "thorough": 16000, "shards_quick": 8, "shards_thorough": 16, "timeout_thorough": 3400},
         ]},
     ],
     "assumptions": ["fake servers listen on 127.0.0.1 with certificates from the harness CA"],
@@ -405,6 +406,9 @@ CHECKS["C18"] = {
     "parts": [
         {"engine": "P", "pkg": "internal/upstream", "race": True, "tests": [
             {"run": "TestVfC18UpstreamClose", "quick": 240, "thorough": 66670, "shards_quick": 8, "shards_thorough": 16, "timeout_thorough": 3400, "shrinktime": "10s"},
+        ]},
+        {"engine": "P", "pkg": "internal/upstream/transport", "tests": [
+            {"run": "TestVfC18ReuseIdleRace", "quick": 320, "thorough": 32000, "shards_quick": 8, "shards_thorough": 16, "timeout_thorough": 3400, "shrinktime": "10s"},
         ]},
         {"engine": "P", "pkg": "app/router", "tests": [
             {"run": "TestVfC18RunReleases", "quick": 240, "thorough": 6000, "shards_quick": 8, "shards_thorough": 16, "shrinktime": "10s"},
